@@ -165,7 +165,7 @@ func main() {
 	c := hx.New("C16")
 	defer c.Finish()
 	lib.Init()
-	total := c.Pick(24000, 1200000)
+	total := c.Pick(100000, 6000000)
 	per := total / c.NBatch
 	longLived := entities.NewSet(false) // M: reused across every case of this batch
 	resetCycles := 0
